@@ -3,8 +3,9 @@
 import json
 import os
 import random
+import subprocess
 
-from vf import Infra, markers, write_ndjson, read_ndjson, validate_traces
+from vf import REPO, GOENV, Infra, markers, write_ndjson, read_ndjson, validate_traces
 
 LEVEL = "model_checking"
 HOWS = ["type", "type21", "type20", "vers", "len+", "len-", "iv", "body", "last", "trunc1", "truncblk", "ext1", "extblk"]
@@ -150,6 +151,24 @@ def run(ctx):
             cur = []
         cur.append(e)
     traces.append(cur)
+    # the executions of the repository's OWN gmtls tests (HTTPS over GMSSL, auto-switch server, client authentication ...): a
+    # verif-tagged test file installs the same hooks, and every record operation those tests cause is validated as well
+    rt = os.path.join(ctx.work, "repo_tests.trace.ndjson")
+    try:
+        pr = subprocess.run(["go", "test", "-tags", "verif", "-count=1", "./gmtls"], cwd=REPO, env=dict(GOENV, VERIF_TRACE=rt),
+                            capture_output=True, text=True, timeout=600)
+        ran = pr.returncode == 0 and os.path.exists(rt)
+    except subprocess.TimeoutExpired:
+        ran = False
+    if ran:
+        revs = read_ndjson(rt)
+        traces.append([{"ev": "reset", "id": "repository tests (go test ./gmtls)"}] + revs)
+        ctx.log("repository's own gmtls tests: %d record operations recorded through the hooks" % len(revs))
+        ctx.cov["repository_test_events"] = len(revs)
+    else:
+        # (fixed ports: another run of these tests on the machine makes them fail; that is not this property's subject)
+        ctx.log("repository's own gmtls tests did not run cleanly here; their traces are not part of this run")
+        ctx.cov["repository_test_events"] = 0
     for t in traces:
         t.append({"ev": "end"})
 
